@@ -289,7 +289,7 @@ def convert_kw(name, kw):
     out = {}
     for k, v in kw.items():
         if k in TUPLE_ARGS:
-            out[k] = tuple(float(x) for x in v)
+            out[k] = tuple(x if type(x) is int else float(x) for x in v)        # integer-valued intents (see intify) stay Python ints
         elif name in ARRAY_CLASSES and k in ARRAY_ARGS and isinstance(v, (list, tuple)):
             out[k] = jnp.asarray(np.asarray(v, float))
         else:
@@ -306,6 +306,19 @@ def make_intent(rng, name, D, N, L=None, dt=None, variant=0, order=None):
     if spec["sig"] == "phys":
         it["L"] = float(L if L is not None else rng.choice([1.0, 2 * np.pi, 3.7]))
         it["dt"] = float(dt if dt is not None else 10 ** rng.uniform(-3, -1.5))
+    return it
+
+
+def intify(it):
+    """The same kind of configuration typed with Python ints (`GeneralLinearStepper(1, 2, 64, 1, linear_coefficients=(0, -1, 1))`): integer box size,
+    integer time step and integer entries of every coefficient tuple (sign of the drawn value kept, magnitude 1-3).  Union-typed float|Array arguments
+    are left alone: the library documents float or array for them and refuses ints."""
+    if "L" in it:
+        it["L"] = int([1, 2, 7, 5][it["N"] % 4])
+        it["dt"] = int(np.sign(it["dt"]) or 1) * (1 + it["N"] % 2)
+    for k, v in it["kw"].items():
+        if k in TUPLE_ARGS:
+            it["kw"][k] = [0 if x == 0 else int(np.sign(x)) * (1 + int(abs(x) * 1e3) % 3) for x in v]
     return it
 
 
